@@ -78,6 +78,13 @@ def pack_scalar(x, how):
         if float(x) != int(x):
             raise HarnessError("int packaging of non-integral value")
         return np.array(int(x))
+    if how in ("npint32", "npuint32", "arr0duint"):
+        # 32-bit and unsigned NumPy integers (only 8- and 16-bit integer scalars are left out:
+        # NumPy itself evaluates cos, exp, ... of those in half / single precision)
+        if float(x) != int(x) or (how != "npint32" and x < 0):
+            raise HarnessError("packaging %s of the value %r" % (how, x))
+        return {"npint32": np.int32, "npuint32": np.uint32,
+                "arr0duint": lambda v: np.array(v, dtype=np.uint32)}[how](int(x))
     raise HarnessError(how)
 
 
@@ -87,7 +94,9 @@ def scalar_packagings(x):
         # integral values may arrive as python ints or as NumPy integer scalars / 0-d
         # integer arrays: every entry point applies trigonometry / exponentials / float
         # arithmetic to them (array_like defaults to integer_type=False for this reason)
-        p.extend(["int", "npint", "arr0dint"])
+        p.extend(["int", "npint", "arr0dint", "npint32"])
+        if x >= 0:
+            p.extend(["npuint32", "arr0duint"])
     if f32_exact(x):
         p.append("np32")
     return p
@@ -287,7 +296,8 @@ def body_scalar(case, ctx):
                   dtype=str(r.dtype))
         ctx.check(np.all(np.isfinite(r)), ep + ": reference output finite", x=x)
     got = fn(pack_scalar(x, how), ctx)
-    if how in ("float", "int", "np64", "arr0d", "np32", "npint", "arr0dint"):
+    if how in ("float", "int", "np64", "arr0d", "np32", "npint", "arr0dint", "npint32",
+               "npuint32", "arr0duint"):
         for g in got:
             g = np.asarray(g)
             if ep != "number":
@@ -900,6 +910,32 @@ def body_rescale(case, ctx):
     r1 = np.array(tv1.point_along(d1).coords("klein"))
     ctx.close("following the tangent for d(p,q) arrives at q", r1, KB, rtol=0,
               atol=1e-6 * hs * hs / np.maximum(np.min(sep, initial=1.0), 1e-3))
+    # angles at the (rescaled, not yet queried) basepoint: between the directions to the second
+    # cloud and to a fixed third point, and between two raw ambient vectors
+    third = hyperbolic.Point(np.array(case["iso_pt"]), model="klein")
+    KC = np.broadcast_to(np.array(case["iso_pt"], dtype=float), KA.shape)
+    sepc = np.sqrt(np.sum((KA - KC) ** 2, axis=-1))
+    angs = []
+    for (PA, PB) in ((PA0, PB0), (PA1, PB1)):
+        Af, Bf = mk(PA, PB)
+        t_ab = Af.unit_tangent_towards(Bf)
+        Af2 = hyperbolic.Point(PA.copy())
+        t_ac = Af2.unit_tangent_towards(third)
+        a1 = np.array(t_ab.angle(t_ac), dtype=float)
+        raw1 = hyperbolic.TangentVector(hyperbolic.Point(PA.copy()),
+                                        np.concatenate([0.3 * one, KB - KA], axis=-1))
+        raw2 = hyperbolic.TangentVector(hyperbolic.Point(PA.copy()),
+                                        np.concatenate([-0.2 * one, KC - KA], axis=-1))
+        a2 = np.array(raw1.angle(raw2), dtype=float)
+        angs.append((a1, a2))
+    atol_ang = 1e-6 * hs * hs / np.maximum(np.minimum(sep, sepc), 1e-3)
+    okc = sepc > 0.02
+    for j, nm in enumerate(("angle between unit tangents at a rescaled basepoint",
+                            "angle between raw tangent vectors at a rescaled basepoint")):
+        d_ang = np.where(okc, angs[1][j] - angs[0][j], 0.0)
+        # (near 0 and pi the arccos amplifies rounding like a square root)
+        ctx.small(nm + " unchanged", d_ang / np.sqrt(atol_ang), 1.0, got=angs[1][j],
+                  ref=angs[0][j])
     # constructed isometries as projective maps (determined part)
     O1 = A1.origin_to(force_oriented=case["force"])
     origin = hyperbolic.Point.get_origin(n, shape)
@@ -1031,6 +1067,42 @@ def body_horo_rescale(case, ctx):
 
 
 # ---------------------------------------------------------------------------
+@st.composite
+def boundary_arc_case(draw):
+    a = draw(fl(-math.pi, math.pi))
+    # the second endpoint neither equal nor antipodal to the first (margin 0.05 in the sine)
+    gap = draw(st.one_of(fl(0.06, math.pi - 0.06), fl(-math.pi + 0.06, -0.06)))
+    return dict(a=a, b=a + gap, s=[draw(gen.scalars_pm()), draw(gen.scalars_pm())],
+                degrees=draw(st.booleans()), model=draw(st.sampled_from(["poincare", "klein"])),
+                ctor=draw(st.sampled_from(["two", "stacked"])))
+
+
+def body_boundary_arc(case, ctx):
+    """an arc of the ideal boundary given by its two endpoints: which arc it is (from the first
+    endpoint counter-clockwise to the second) does not depend on the representatives"""
+    a, b = case["a"], case["b"]
+    e = [np.array([1.0, math.cos(t), math.sin(t)]) for t in (a, b)]
+    ctx.label("negative-factor" if min(case["s"]) < 0 else "",
+              "units-scaled-differently" if case["s"][0] != case["s"][1] else "",
+              "opposite-signs" if case["s"][0] * case["s"][1] < 0 else "")
+    per = 360.0 if case["degrees"] else 2 * math.pi
+    out = []
+    for scales in ((1.0, 1.0), tuple(case["s"])):
+        p1, p2 = e[0] * scales[0], e[1] * scales[1]
+        arc = hyperbolic.BoundaryArc(p1.copy(), p2.copy()) if case["ctor"] == "two" else \
+            hyperbolic.BoundaryArc(np.stack([p1, p2]))
+        c, r, th = arc.circle_parameters(model=case["model"], degrees=case["degrees"])
+        out.append((np.asarray(c, dtype=float), float(r), np.asarray(th, dtype=float)))
+    for (c, r, th) in out:
+        ctx.close("a boundary arc lies on the unit circle", np.append(c, r), [0.0, 0.0, 1.0],
+                  rtol=0, atol=1e-12)
+        want = np.array([a, b]) * (per / (2 * math.pi))
+        ctx.small("the arc runs from the first endpoint to the second",
+                  _circ_diff(th, want, per), 1e-9 * per)
+    ctx.small("boundary arc angles unchanged by rescaling the endpoints",
+              _circ_diff(out[1][2], out[0][2], per), 1e-9 * per)
+
+
 LAWS = [
     Law("packaging_scalar", scalar_case(), body_scalar,
         lambda l: "non-reference-packaging" in l, quick=600, thorough=4000, shards=(2, 8)),
@@ -1044,6 +1116,8 @@ LAWS = [
     Law("rescaling_points_segments_tangents", rescale_case(), body_rescale,
         lambda l: "negative-factor" in l and "units-scaled-differently" in l, quick=300,
         thorough=3000, shards=(2, 8)),
+    Law("rescaling_boundary_arcs", boundary_arc_case(), body_boundary_arc,
+        lambda l: "negative-factor" in l, quick=150, thorough=1000, shards=(1, 2)),
     Law("rescaling_polygons", polygon_rescale_case(), body_polygon_rescale,
         lambda l: "negative-factor" in l, quick=150, thorough=1500, shards=(1, 4)),
     Law("rescaling_horospheres_hyperplanes", horo_rescale_case(), body_horo_rescale,
